@@ -18,6 +18,7 @@ pub mod c14;
 pub mod c15;
 pub mod c16;
 pub mod c17;
+pub mod c18;
 
 pub fn run(id: &str, eng: &Engine) {
     match id {
@@ -38,6 +39,7 @@ pub fn run(id: &str, eng: &Engine) {
         "C15" => c15::run(eng),
         "C16" => c16::run(eng),
         "C17" => c17::run(eng),
+        "C18" => c18::run(eng),
         _ => {
             println!("INCONCLUSIVE unknown property {id}");
             std::process::exit(2);
@@ -64,6 +66,7 @@ pub fn replay(id: &str, eng: &Engine, stage: &str, case: &Value) -> CaseResult {
         "C15" => c15::replay(eng, stage, case),
         "C16" => c16::replay(eng, stage, case),
         "C17" => c17::replay(eng, stage, case),
+        "C18" => c18::replay(eng, stage, case),
         _ => Err(Failure::new("machinery", format!("unknown property {id}"))),
     }
 }
